@@ -44,7 +44,9 @@ def RAISE(c, args):
 
 
 RECS = [["r", 0, [[0, I(1)], [1, S("ab")]]], ["r", 1, [[0, I(2)], [1, S("a")]]],
-        ["r", 2, [[0, I(1)], [1, S("ab")]]], ["r", 3, [[0, I(3)], [1, S("")], [2, L([I(1)])]]]]
+        ["r", 2, [[0, I(1)], [1, S("ab")]]], ["r", 3, [[0, I(3)], [1, S("")], [2, L([I(1)])]]],
+        ["r", 4, [[0, I(0)], [1, S("")], [2, L([])]]]]
+FALSY = [I(0), S(""), B(b""), NONE, L([]), D([])]
 USER_EXC = (1, 2, 3, 4, 7)
 STRS = ["", "a", "ab", "abc", "b", "c", "abcabc", "f1", "d1", "nope", "d1/g", "d1/../f1", "a\nc", "xé"]
 BYTESS = [b"", b"a", b"ab", b"abc", b"\x00\xff"]
@@ -106,21 +108,25 @@ FAM = {
     "INT": {
         "vals": [I(-1), I(0), I(1), I(2), I(3), I(5)],
         "leaves": [["Equals", I(1)], ["LessThan", I(2)], ["Never"], ["NotEquals", I(2)], ["GreaterThan", I(1)],
-                   ["IsInstance", ["int"]], ["Always"], ["Is", NONE]],
+                   ["IsInstance", ["int"]], ["Always"], ["Is", NONE], ["Equals", I(0)], ["GreaterThan", I(0)]],
     },
     "STR": {
         "vals": [S(""), S("a"), S("ab"), S("abc"), S("f1"), S("d1"), S("nope")],
         "leaves": [["StartsWith", S("a")], ["Leaf", 0], ["Leaf", 1], ["Equals", S("ab")], ["EndsWith", S("c")],
-                   ["Contains", S("b")], ["HasLength", 2], ["Leaf", 2], ["Leaf", 3], ["LessThan", S("b")]],
+                   ["Contains", S("b")], ["HasLength", 2], ["Leaf", 2], ["Leaf", 3], ["LessThan", S("b")],
+                   ["Equals", S("")], ["StartsWith", S("")], ["Contains", S("")], ["HasLength", 0]],
     },
     "BYTES": {
         "vals": [B(b""), B(b"a"), B(b"ab"), B(b"abc")],
         "leaves": [["StartsWith", B(b"a")], ["Contains", I(98)], ["Contains", B(b"bc")], ["EndsWith", B(b"c")],
-                   ["GreaterThan", B(b"a")], ["Equals", B(b"ab")]],
+                   ["GreaterThan", B(b"a")], ["Equals", B(b"ab")], ["Equals", B(b"")], ["StartsWith", B(b"")],
+                   ["Contains", B(b"")], ["Contains", I(0)]],
     },
     "LIST_INT": {
-        "vals": [L([]), L([I(1)]), L([I(1), I(2)]), L([I(2), I(1)]), L([I(1), I(1)]), L([I(1), I(2), I(3)])],
-        "leaves": [["Equals", L([I(1), I(2)])], ["SameMembers", [I(2), I(1)]], ["HasLength", 2], ["Contains", I(2)]],
+        "vals": [L([]), L([I(1)]), L([I(1), I(2)]), L([I(2), I(1)]), L([I(1), I(1)]), L([I(1), I(2), I(3)]), L([I(0)]),
+                 L([I(0), I(1)])],
+        "leaves": [["Equals", L([I(1), I(2)])], ["SameMembers", [I(2), I(1)]], ["HasLength", 2], ["Contains", I(2)],
+                   ["Equals", L([])], ["SameMembers", []], ["HasLength", 0], ["Contains", I(0)]],
         "elem": "INT",
     },
     "LIST_STR": {
@@ -130,17 +136,30 @@ FAM = {
     },
     "DICT": {
         "vals": [D([]), D([[S("a"), I(1)]]), D([[S("a"), I(1)], [S("b"), I(2)]]), D([[S("b"), I(2)], [S("a"), I(1)]]),
-                 D([[S("a"), I(2)], [S("c"), I(3)]]), D([[S("a"), I(1)], [S("b"), I(2)], [S("c"), I(3)]])],
+                 D([[S("a"), I(2)], [S("c"), I(3)]]), D([[S("a"), I(1)], [S("b"), I(2)], [S("c"), I(3)]]),
+                 # falsy values under common and under surplus keys
+                 D([[S("a"), I(0)]]), D([[S("a"), I(1)], [S("b"), I(2)], [S("z"), I(0)]]),
+                 D([[S("a"), I(1)], [S("z"), NONE]]), D([[S("z"), S("")]]),
+                 D([[S("a"), I(0)], [S("b"), I(0)], [S("z"), L([])], [S("y"), D([])]]),
+                 D([[S("a"), I(1)], [S("b"), I(2)], [S("y"), B(b"")]])],
         "leaves": [["KeysEqual", [S("a"), S("b")]], ["Equals", D([[S("a"), I(1)], [S("b"), I(2)]])], ["HasLength", 2],
-                   ["Contains", S("a")]],
+                   ["Contains", S("a")], ["KeysEqual", []], ["Equals", D([])], ["HasLength", 0]],
     },
     "REC": {
         "vals": RECS,
         "leaves": [["Is", RECS[0]], ["Equals", RECS[0]], ["IsInstance", ["rec"]], ["Never"]],
     },
+    "FALSY": {
+        "vals": FALSY + [I(1)],
+        "leaves": [["Equals", I(0)], ["Equals", S("")], ["Equals", NONE], ["Equals", L([])], ["Equals", D([])],
+                   ["Equals", B(b"")], ["Is", NONE], ["NotEquals", I(0)], ["IsInstance", ["none"]], ["Contains", S("")],
+                   ["Contains", NONE]],
+    },
     "EXC": {
-        "vals": [X(2, [S("a")]), X(2, []), X(4, [S("k")]), X(7, [I(1)]), X(5, []), X(1, [S("a"), I(1)])],
-        "leaves": [["MatchesException", True, [2], [S("a")], None], ["MatchesException", False, [2], [], None],
+        "vals": [X(2, [S("a")]), X(2, []), X(4, [S("k")]), X(7, [I(1)]), X(5, []), X(1, [S("a"), I(1)]), X(2, [S("")]),
+                 X(2, [I(0)])],
+        "leaves": [["MatchesException", True, [2], [S("a")], None], ["MatchesException", True, [2], [S("")], None],
+                   ["MatchesException", True, [2], [], None], ["MatchesException", False, [2], [], None],
                    ["MatchesException", False, [3, 2], [], None], ["MatchesException", False, [0], [], None],
                    ["MatchesException", False, [], [], None], ["IsInstance", ["tuple"]], ["HasLength", 3], ["Never"]],
     },
@@ -152,12 +171,12 @@ FAM = {
     },
     # callables that return or raise an Exception subclass (a nested Raises lets nothing through)
     "CALLU": {
-        "vals": [RET(I(1)), RAISE(2, [S("a")]), RAISE(4, [S("k")]), RAISE(7, [])],
+        "vals": [RET(I(1)), RAISE(2, [S("a")]), RAISE(4, [S("k")]), RAISE(7, []), RET(I(0)), RET(NONE), RAISE(2, [I(0)])],
         "leaves": [["Raises", None], ["Raises", ["MatchesException", False, [2], [], None]],
                    ["Raises", ["MatchesException", True, [2], [S("a")], None]], ["IsInstance", ["func"]], ["Never"]],
     },
 }
-CALL_ALL = [RET(I(1)), RAISE(2, [S("a")]), RAISE(4, [S("k")]), RAISE(7, []), RAISE(5, []), RAISE(8, [I(1)]),
+CALL_ALL = [RET(I(0)), RET(NONE), RET(I(1)), RAISE(2, [S("a")]), RAISE(4, [S("k")]), RAISE(7, []), RAISE(5, []), RAISE(8, [I(1)]),
             RAISE(6, [I(3)])]
 
 
@@ -261,6 +280,8 @@ class St:
 
 
 def rand_scalar(rng, kind=None):
+    if kind is None and rng.random() < 0.2:
+        return rng.choice(FALSY[:4])
     kind = kind or rng.choice("iiissbn")
     if kind == "i":
         return I(rng.randint(-1, 4))
@@ -272,6 +293,8 @@ def rand_scalar(rng, kind=None):
 
 
 def rand_plain(rng, d=2):
+    if rng.random() < 0.12:
+        return rng.choice(FALSY)
     r = rng.random()
     if d == 0 or r < 0.45:
         return rand_scalar(rng)
@@ -286,7 +309,7 @@ def rand_plain(rng, d=2):
     return rng.choice(RECS)
 
 
-ARGS = [[], [S("a")], [S("k")], [I(1)], [S("a"), I(1)], [S("abc")], [L([I(1)])]]
+ARGS = [[], [S("a")], [S("k")], [I(1)], [S("a"), I(1)], [S("abc")], [L([I(1)])], [S("")], [I(0)], [NONE], [L([])]]
 
 
 def rand_value(rng):
@@ -483,6 +506,35 @@ def setwise_special(rng):
     return m, v
 
 
+def dict_special(rng):
+    """dict matchers whose verdict is decided by the key sets alone: every per-key matcher matches, values are
+    mostly falsy (0, '', b'', None, [], {}) under common, surplus and missing keys"""
+    keys = rng.sample(["a", "b", "c", "z"], rng.randint(0, 4))
+    obs = [[S(k), rng.choice(FALSY) if rng.random() < 0.75 else rand_plain(rng, 1)] for k in keys]
+    mkeys = [k for k in keys if rng.random() < 0.6] + [k for k in ["a", "b", "m"] if k not in keys and rng.random() < 0.25]
+    rng.shuffle(mkeys)
+    vals = dict((k[1], v) for k, v in obs)
+    kms = []
+    for k in mkeys:
+        if k in vals and is_plain(vals[k]):
+            sub = rng.choice([["Equals", vals[k]], ["Always"], ["Not", ["Never"]], ["IsInstance", ["object"]]])
+            if rng.random() < 0.15:
+                sub = rng.choice([["NotEquals", vals[k]], ["Never"]])
+        else:
+            sub = rng.choice([["Always"], ["Never"]])
+        kms.append([S(k), sub])
+    m = [rng.choice(["MatchesDict", "ContainsDict", "ContainedByDict"]), kms]
+    v = D(obs)
+    r = rng.random()
+    if r < 0.15:
+        m = ["Not", m]
+    elif r < 0.3:
+        m, v = ["AllMatch", m], L([v, D(obs[:1])])
+    elif r < 0.4:
+        m = ["MatchesAll", rng.random() < 0.5, [["IsInstance", ["dict"]], m]]
+    return m, v
+
+
 F13_WITNESS = {"m": ["MatchesSetwise", 0, [["MatchesAny", [["Equals", I(1)], ["Equals", I(2)]]], ["Equals", I(1)]]],
                "v": L([I(1), I(2)]), "leafdefs": [], "accept": []}
 
@@ -512,17 +564,27 @@ def generate(rng, tier):
         (["SameMembers", [I(1), S("1"), NONE]], L([NONE, S("1"), I(1)])),
         (["IsInstance", []], I(1)), (["HasLength", 3], X(2, [])),
         (["MatchesStructure", []], RECS[0]),
+        (["MatchesDict", [[S("a"), ["Equals", I(1)]]]], D([[S("a"), I(1)], [S("zzz"), I(0)]])),
+        (["ContainedByDict", [[S("a"), ["Equals", I(1)]]]], D([[S("zzz"), NONE]])),
+        (["ContainsDict", [[S("a"), ["Equals", I(0)]], [S("m"), ["Always"]]]], D([[S("a"), I(0)]])),
+        (["MatchesDict", [[S("a"), ["Equals", S("")]]]], D([[S("a"), S("")], [S("b"), L([])], [S("c"), D([])]])),
+        (["MatchesStructure", [[0, ["Equals", I(0)]], [1, ["Equals", S("")]], [2, ["Equals", L([])]]]], RECS[4]),
+        (["AllMatch", ["Equals", I(0)]], L([I(0), I(0)])), (["AnyMatch", ["Equals", NONE]], L([NONE])),
+        (["MatchesListwise", False, [["Equals", S("")], ["Equals", L([])]]], L([S(""), L([])])),
+        (["MatchesSetwise", 0, [["Equals", I(0)], ["Equals", NONE]]], L([NONE, I(0)])),
+        (["Raises", None], RET(I(0))), (["Raises", None], RET(NONE)),
+        (["AfterPreprocessing", 1, True, ["Equals", I(0)]], S("")),
         (["MatchesException", False, [2], [], ["AfterPreprocessing", 2, True, ["Equals", L([S("a")])]]], X(7, [S("a")])),
     ]
     for m, v in fixed:
         cases.append(mk_case(m, v))
     # exhaustive to depth 1 over the full leaf sets (every family), strided in the quick tier
     d1 = []
-    for fam in ("INT", "STR", "BYTES", "LIST_INT", "LIST_STR", "DICT", "REC", "EXC", "CALLU"):
+    for fam in ("INT", "STR", "BYTES", "LIST_INT", "LIST_STR", "DICT", "REC", "EXC", "CALLU", "FALSY"):
         d1 += list(enum_cases(fam, 1, None))
     for e in [["Raises", None]] + [["Raises", x] for x in enum("EXC", 1, 4)]:
         d1 += [(e, v) for v in CALL_ALL]
-    stride = 4 if quick else 1
+    stride = max(1, len(d1) // 2600) if quick else 1
     off = rng.randrange(stride)
     for k, (m, v) in enumerate(d1):
         if k % stride == off:
@@ -541,8 +603,12 @@ def generate(rng, tier):
     for _ in range(300 if quick else 4000):
         m, v = setwise_special(rng)
         cases.append(mk_case(m, v))
+    # dict matchers decided by their key sets, falsy values everywhere
+    for _ in range(400 if quick else 5000):
+        m, v = dict_special(rng)
+        cases.append(mk_case(m, v))
     # random, depth <= 4
-    for _ in range(2200 if quick else 40000):
+    for _ in range(1800 if quick else 40000):
         st = St(rng)
         v = rand_value(rng)
         m = gm(rng, rng.choice([1, 2, 2, 3, 3, 4]), [v], st, top=True)
